@@ -27,7 +27,7 @@ Definition left_value : list Z -> list Z -> Z -> option Z :=
                     | x :: xs', y :: ys' => if (x <=? v)%Z then (match go xs' ys' v with Some r => Some r | None => Some y end) else None
                     | _, _ => None
                     end.
-Definition run (assign : bool) insts qv := interp_at Z.leb Z.eqb (fun z => z) left_value assign insts ["t"] qv.
+Definition run (assign : bool) insts qv := interp_at Z.leb Z.eqb (fun z => z) left_value TF assign insts ["t"] qv.
 
 Example series_hypotheses :
   keys_of (fun z => z) ["t"] series = Some [20; 0; 10]%Z /\ distinct Z.eqb [20; 0; 10]%Z /\
@@ -64,9 +64,9 @@ Proof. split; [vm_compute; reflexivity | apply Permutation_rev]. Qed.
 
 (* floats inside a tuple are not reached by the walk: they stay those of the first instance *)
 Example tuple_leaves_not_interpolated :
-  interp_at Z.leb Z.eqb (fun z => z) left_value false
+  interp_at Z.leb Z.eqb (fun z => z) left_value TF false
     [TO [("t", TF 0%Z); ("centre", TT [TF 1%Z; TF 2%Z])]; TO [("t", TF 10%Z); ("centre", TT [TF 11%Z; TF 12%Z])]] ["t"] (TF 10%Z) = OSame 1
-  /\ interp_at Z.leb Z.eqb (fun z => z) left_value false
+  /\ interp_at Z.leb Z.eqb (fun z => z) left_value TF false
     [TO [("t", TF 0%Z); ("centre", TT [TF 1%Z; TF 2%Z])]; TO [("t", TF 10%Z); ("centre", TT [TF 11%Z; TF 12%Z])]] ["t"] (TF 12%Z)
      = ONew (TO [("t", TF 10%Z); ("centre", TT [TF 1%Z; TF 2%Z])]).
 Proof. split; vm_compute; reflexivity. Qed.
@@ -75,7 +75,7 @@ Proof. split; vm_compute; reflexivity. Qed.
    replacing_for_path is discarded, whatever the routine does *)
 Lemma variable_refuted_witness :
   exists (insts : list (tree Z)) (q : list string) (qv r : tree Z),
-    interp_at Z.leb Z.eqb (fun z => z) (fun _ _ v => Some v) false insts q qv = ONew r /\
+    interp_at Z.leb Z.eqb (fun z => z) (fun _ _ v => Some v) TF false insts q qv = ONew r /\
     get (qkeys q) r <> Some qv.
 Proof.
   exists [TO [("t", TI 0%Z); ("c", TF 1%Z)]; TO [("t", TI 2%Z); ("c", TF 3%Z)]], ["t"], (TF 1%Z),
